@@ -242,7 +242,10 @@ pub fn check(case: &Case) -> CheckResult {
 pub fn run(args: &Args) -> i32 {
     // child shard of the wire-lab sub-check
     if args.shard.is_some() {
-        let st = super::c16_lab::child(args, args.cases(120, 1_200));
+        let st = match args.only.as_deref() {
+            Some(super::c16_adm::SUB) => super::c16_adm::child(args, args.cases(300, 3_000)),
+            _ => super::c16_lab::child(args, args.cases(120, 1_200)),
+        };
         return engine::shard::child_finish(args, &st);
     }
     let mut ev = Evidence::new(args, "exploration");
@@ -261,5 +264,14 @@ pub fn run(args: &Args) -> i32 {
     ev.floor("sessions", "per_ip_refusal", 0.1);
     engine::run_pbt(&mut ev, args, "sessions", args.cases(60_000, 1_500_000), strategy, check);
     engine::shard::run_sharded(&mut ev, args, super::c16_lab::SUB, 16, std::time::Duration::from_secs(args.tier.pick(600, 5400)));
+    ev.rule(super::c16_adm::SUB, super::c16_adm::rule());
+    ev.assume("admission: all clients connect over loopback (127.0.0.1, the limited cluster's clients from 127.0.0.2..4); an excess connection may be closed at once, queued by the proxy or left in the kernel's listen backlog (bin/config.toml and doc/lifetime_of_a_session.md describe both), and nothing bounds how long it waits while the worker stays full: only 'no service beyond the limit', 'served again once the load has dropped' (bounded by accept_queue_timeout + 6 s of no progress at all) and 'never stuck once served' are judged");
+    ev.assume("admission: 'still open' is what a client sees (a read that finds neither bytes nor the end of the stream); the end of a served interval is moved back by 40 ms so that a close by the proxy that the client has not noticed yet cannot count against the limit");
+    // measured over seeds 1, 2, 3, 7 (quick): storm_above_max 0.75, gauge_at_max_connections 0.8, refused_at_limit 0.6..0.66,
+    // queued_client_served_later 0.54..0.58, per_ip_changed_mid_storm 0.6..0.72, second_wave 0.33..0.38, storm_2x+ 0.17..0.23, per_ip_limit_hit 0.29..0.33
+    for (class, floor) in [("storm_above_max", 0.5), ("gauge_at_max_connections", 0.5), ("refused_at_limit", 0.3), ("queued_client_served_later", 0.3), ("per_ip_changed_mid_storm", 0.4), ("second_wave", 0.2), ("storm_2x+", 0.1), ("per_ip_limit_hit", 0.15)] {
+        ev.floor(super::c16_adm::SUB, class, floor);
+    }
+    engine::shard::run_sharded(&mut ev, args, super::c16_adm::SUB, 16, std::time::Duration::from_secs(args.tier.pick(900, 7200)));
     ev.finish()
 }
